@@ -525,12 +525,15 @@ def classify_bucket(field: str, value, source_of: dict | None = None, atom_info:
                 merged.entries += [(x, f_and([g, gx])) for x, gx in o.entries]
             else:
                 bv.mode, bv.detail = "unknown", f"bucket value is not a collection: {show_term(term_of(o))[:80]}"
+                bv.undecided = f"{field}: {bv.detail} (a value the interpreter holds opaquely)"
                 return bv
         value = merged
     if not isinstance(value, Coll):
         if isinstance(value, Sym) and value.term[0] == "copy":
             pass
         bv.mode, bv.detail = "unknown", f"bucket value is not a collection built by the detector: {show_term(term_of(value))[:80]}"
+        if not (isinstance(value, Const) and value.value is None):
+            bv.undecided = f"{field}: {bv.detail} (a value the interpreter holds opaquely)"
         return bv
     groups: dict = {}
     for x, g in value.entries:
@@ -1009,6 +1012,7 @@ def plain_mode(repo: Repo, field: str) -> tuple:
     for sc in legal_scenarios():
         b = demand_run(repo, sc)[field]
         if b.empty:
+            und = und or b.undecided
             continue
         modes.add(b.mode)
         grans.add(b.gran)
